@@ -92,7 +92,9 @@ func genC06(g *gen) {
 	g.line("Definition gen_split_closes_when_size_would_exceed : bool := %s.", coqBool(sizeGT))
 
 	for _, fn := range []string{"AnnounceLocalRoutes", "SendFullTable"} {
-		loop, seqInside, routesIsGroup := false, false, false
+		loop, routesIsGroup := false, false
+		freshSeq, keptSeq, seenByIsPath := false, false, false
+		outside := 0
 		if fd := findFunc(f, "Flooder", fn); fd != nil {
 			ast.Inspect(fd.Body, func(n ast.Node) bool {
 				rs, ok := n.(*ast.RangeStmt)
@@ -101,23 +103,47 @@ func genC06(g *gen) {
 				}
 				loop = true
 				group := src(rs.Value)
-				ast.Inspect(rs.Body, func(m ast.Node) bool {
-					switch y := m.(type) {
-					case *ast.CallExpr:
-						if strings.HasSuffix(src(y.Fun), ".IncrementSequence") {
-							seqInside = true
+				seqVar := ""
+				for _, st := range rs.Body.List {
+					switch y := st.(type) {
+					case *ast.AssignStmt:
+						if len(y.Lhs) == 1 && len(y.Rhs) == 1 && y.Tok == token.DEFINE {
+							switch {
+							case strings.HasSuffix(src(y.Rhs[0]), ".IncrementSequence()"):
+								freshSeq, seqVar = true, src(y.Lhs[0]) // every group numbered from the local counter
+							case src(y.Rhs[0]) == "key.seq":
+								keptSeq, seqVar = true, src(y.Lhs[0]) // the stored (origin's) sequence number
+							}
 						}
-					case *ast.KeyValueExpr:
-						if src(y.Key) == "Routes" && src(y.Value) == group {
-							routesIsGroup = true
+					case *ast.IfStmt:
+						// if originAgent == f.localID { seq = f.routeMgr.IncrementSequence() }
+						if be, ok := y.Cond.(*ast.BinaryExpr); ok && be.Op == token.EQL && src(be.X) == "originAgent" && src(be.Y) == "f.localID" &&
+							len(y.Body.List) == 1 && y.Else == nil {
+							if as, ok := y.Body.List[0].(*ast.AssignStmt); ok && len(as.Lhs) == 1 && src(as.Lhs[0]) == seqVar &&
+								strings.HasSuffix(src(as.Rhs[0]), ".IncrementSequence()") {
+								freshSeq = true
+							}
+						}
+					}
+				}
+				ast.Inspect(rs.Body, func(m ast.Node) bool {
+					if kv, ok := m.(*ast.KeyValueExpr); ok {
+						switch src(kv.Key) {
+						case "Routes":
+							routesIsGroup = src(kv.Value) == group
+						case "Sequence":
+							if src(kv.Value) != seqVar {
+								freshSeq, keptSeq = false, false
+							}
+						case "SeenBy":
+							seenByIsPath = src(kv.Value) == "path"
 						}
 					}
 					return true
 				})
 				return false
 			})
-			// no IncrementSequence outside the loop and no advertisement built outside it
-			outside := 0
+			// no sequence number taken and no advertisement built outside the loop
 			ast.Inspect(fd.Body, func(n ast.Node) bool {
 				if rs, ok := n.(*ast.RangeStmt); ok && strings.HasPrefix(src(rs.X), "splitRoutes(") {
 					return false
@@ -130,15 +156,97 @@ func genC06(g *gen) {
 				}
 				return true
 			})
-			if outside > 0 {
-				seqInside = false
-			}
 		} else {
 			g.note("%s not found", fn)
 		}
-		g.line("Definition gen_%s_one_adv_per_group : bool := %s.", fn, coqBool(loop && routesIsGroup))
-		g.line("Definition gen_%s_sequence_per_group : bool := %s.", fn, coqBool(loop && seqInside))
+		okLoop := loop && routesIsGroup && outside == 0
+		g.line("Definition gen_%s_one_adv_per_group : bool := %s.", fn, coqBool(okLoop))
+		if fn == "AnnounceLocalRoutes" {
+			g.line("Definition gen_%s_sequence_per_group : bool := %s.", fn, coqBool(okLoop && freshSeq && !keptSeq))
+		} else {
+			g.line("Definition gen_%s_own_routes_fresh_sequence_per_group : bool := %s.", fn, coqBool(okLoop && freshSeq))
+			g.line("Definition gen_%s_foreign_group_keeps_sequence : bool := %s.", fn, coqBool(okLoop && keptSeq))
+			g.line("Definition gen_%s_seen_by_is_path : bool := %s.", fn, coqBool(okLoop && seenByIsPath))
+		}
 	}
+
+	// SendFullTable: groups are keyed by (origin, sequence, path) for foreign origins and by
+	// origin alone for the local one (replayKeyFor), and only one group per (origin, sequence)
+	// survives (bestGroup selection followed by delete(allOrigins, key))
+	keyed, localKey := false, false
+	if fd := findFunc(f, "Flooder", "replayKeyFor"); fd != nil {
+		ast.Inspect(fd.Body, func(n ast.Node) bool {
+			if cl, ok := n.(*ast.CompositeLit); ok && src(cl.Type) == "replayKey" {
+				fields := map[string]string{}
+				for _, e := range cl.Elts {
+					if kv, ok := e.(*ast.KeyValueExpr); ok {
+						fields[src(kv.Key)] = src(kv.Value)
+					}
+				}
+				if len(fields) == 3 && fields["origin"] == "origin" && fields["seq"] == "seq" && strings.Contains(fields["path"], "EncodePath(path)") {
+					keyed = true
+				}
+				if len(fields) == 1 && fields["origin"] == "origin" {
+					localKey = true
+				}
+			}
+			return true
+		})
+	}
+	g.line("Definition gen_replay_groups_keyed_by_origin_seq_path : bool := %s.", coqBool(keyed && localKey))
+	selects, deletes, bySize, byPathLen, byPathBytes := false, false, false, false, false
+	if fd := findFunc(f, "Flooder", "SendFullTable"); fd != nil {
+		ast.Inspect(fd.Body, func(n ast.Node) bool {
+			switch x := n.(type) {
+			case *ast.AssignStmt:
+				if len(x.Lhs) == 1 && strings.HasPrefix(src(x.Lhs[0]), "bestGroup[") && src(x.Rhs[0]) == "key" {
+					selects = true
+				}
+			case *ast.CallExpr:
+				if src(x.Fun) == "delete" && len(x.Args) == 2 && src(x.Args[0]) == "allOrigins" {
+					deletes = true
+				}
+			case *ast.BinaryExpr:
+				switch {
+				case x.Op == token.GTR && src(x.X) == "groupSize(key)" && src(x.Y) == "groupSize(cur)":
+					bySize = true
+				case x.Op == token.LSS && src(x.X) == "len(key.path)" && src(x.Y) == "len(cur.path)":
+					byPathLen = true
+				case x.Op == token.LSS && src(x.X) == "key.path" && src(x.Y) == "cur.path":
+					byPathBytes = true
+				}
+			}
+			return true
+		})
+	}
+	g.line("Definition gen_replay_one_group_per_origin_seq : bool := %s.", coqBool(selects && deletes))
+	g.line("Definition gen_replay_prefers_larger_then_shorter_path : bool := %s.", coqBool(bySize && byPathLen && byPathBytes))
+
+	// HandleRouteAdvertise: the re-flooded routes are a copy with every metric incremented,
+	// the seen-by list gets the local id appended, origin/sequence are passed through
+	metricInc, passesFwd, seenAppend := false, false, false
+	if fd := findFunc(f, "Flooder", "HandleRouteAdvertise"); fd != nil {
+		ast.Inspect(fd.Body, func(n ast.Node) bool {
+			switch x := n.(type) {
+			case *ast.IncDecStmt:
+				if x.Tok == token.INC && src(x.X) == "fwdRoutes[i].Metric" {
+					metricInc = true
+				}
+			case *ast.AssignStmt:
+				if len(x.Lhs) == 1 && src(x.Lhs[0]) == "newSeenBy" && src(x.Rhs[0]) == "append(seenBy, f.localID)" {
+					seenAppend = true
+				}
+			case *ast.CallExpr:
+				if strings.HasSuffix(src(x.Fun), ".floodAdvertisementEncrypted") && len(x.Args) == 7 &&
+					src(x.Args[1]) == "originAgent" && src(x.Args[3]) == "sequence" && src(x.Args[4]) == "fwdRoutes" && src(x.Args[6]) == "newSeenBy" {
+					passesFwd = true
+				}
+			}
+			return true
+		})
+	}
+	g.line("Definition gen_reflood_increments_metric : bool := %s.", coqBool(metricInc && passesFwd))
+	g.line("Definition gen_reflood_keeps_origin_sequence_appends_seen_by : bool := %s.", coqBool(passesFwd && seenAppend))
 }
 
 // evalSel is intLit extended with protocol.X selectors.
